@@ -10,13 +10,16 @@ EXPLANATION = (
     "protocol numbers (ICMP, ICMPv6, UDP, TCP); the slice decoder that the slicing cursor uses for that protocol - taken "
     "from the MIR of SlicedPacketCursor::slice_<proto> - is interpreted in each final state; both accept or both "
     "reject, the header struct equals the slice's header()/to_header() field by field and the remaining payload is "
-    "the same byte range.  NOT decided: link / link-extension / network layers and the layer sequencing of the two "
-    "whole-packet decoders (loops over VLAN / MACsec / extension headers), the documented IPv6-extension exception.")
+    "the same byte range.  (capfirst) in the link-extension loops of the struct decoder and of the slicing cursor "
+    "(strict and lax pair, VLAN and MACsec parser) the parser call sites are dominated by the not-full edge of a branch "
+    "on a capacity query of the link-extension ArrayVec in both siblings or in neither - MIR CFG dominators - so both "
+    "treat an extension header beyond the capacity as payload without parsing it.  NOT decided: link / network layers "
+    "and the remaining layer sequencing of the two whole-packet decoders, the documented IPv6-extension exception.")
 ASSUMPTIONS = ["error descriptors of the rejecting paths are C07's subject and are not compared here"]
 
 
 def check(ctx):
-    from .. import rules_agree
+    from .. import rules_agree, rules_capfirst
     res = Result()
     for cfg in ctx.configs:
         F = ctx.facts(cfg)
@@ -25,4 +28,9 @@ def check(ctx):
         tag = "" if cfg == "std" else "@" + cfg
         recs = rules_agree.run_transport(F, inv_from_e1(e1), e1.get("summaries"))
         collect(res, recs, tag)
+        caps = rules_capfirst.run(F)
+        for r in caps:
+            if r.get("missing"):
+                res.errors.append("capfirst %s: %s" % (r["what"], r["missing"]))
+        collect(res, [r for r in caps if not r.get("missing")], tag)
     return res
